@@ -37,6 +37,7 @@ func init() {
 			{ID: "C09.R14", Floor: 5, Run: lookupBeforeLock, Text: "the registered-filter lookup comes before the lock: no call that reaches the stale-handle panic of the filter cache is made while a function holds a lock bit it has just taken (a recovered panic would leave the world locked with no query open)"},
 			{ID: "C09.R15", Floor: 12, Run: c11r2, Text: "the removal event is delivered inside a lock window (= C11.R2), whatever the listener subscribes to"},
 			{ID: "C09.R16", Floor: 1, Run: noNarrowParamSums, Text: "sums with caller-supplied values are at least 64 bits wide in Query methods (= C03.R18): a step beyond the end exhausts the query and releases its lock"},
+			{ID: "C09.R17", Floor: 1, Run: closeGuarded, Text: "closing is guarded by the query's own state: the release of a Query's lock bit is dominated by a test of a field of that query"},
 		},
 	})
 }
